@@ -334,6 +334,7 @@ func runC16(rc *RunCtx) {
 			a, b := leaves[tp.Pick(len(leaves))], leaves[tp.Pick(len(leaves))]
 			note("concurrent revoke %s, revoke %s, rotate", a.serial, b.serial)
 			oka, okb := false, false
+			s.SwarmFreeze()
 			s.SetControlled()
 			s.Go(fmt.Sprintf("ca%d", i), func() {
 				r, e := h.Do("ca", Req{Op: logical.UpdateOperation, Path: "pki/revoke", Token: h.Root, Data: map[string]any{"serial_number": a.serial}})
